@@ -146,12 +146,30 @@ def _block_of_stmt(stmt):
 def _parallel_sites(fi: FunctionInfo):
     """[(call Parallel(..)(gen), gen, inner call delayed(f)(args), f expr)]"""
     out = []
+    # locals bound exactly once (`runner = Parallel(..)`, `tasks = (.. for ..)`, `fit_one = delayed(f)`)
+    once: Dict[str, ast.AST] = {}
+    counts: Dict[str, int] = {}
+    for n in own_nodes(fi.node):
+        if isinstance(n, ast.Name) and isinstance(n.ctx, (ast.Store, ast.Del)):
+            counts[n.id] = counts.get(n.id, 0) + 1
+        if isinstance(n, ast.Assign) and len(n.targets) == 1 and isinstance(n.targets[0], ast.Name):
+            once[n.targets[0].id] = n.value
+    once = {k: v for k, v in once.items() if counts.get(k) == 1}
+
+    def res(x):
+        return once[x.id] if isinstance(x, ast.Name) and x.id in once else x
+
     for c in own_nodes_incl_lambda(fi.node):
-        if isinstance(c, ast.Call) and isinstance(c.func, ast.Call) and src_of(c.func.func).split(".")[-1] == "Parallel" and c.args and isinstance(c.args[0], ast.GeneratorExp):
-            gen = c.args[0]
+        if not (isinstance(c, ast.Call) and c.args):
+            continue
+        f0 = res(c.func)
+        if isinstance(f0, ast.Call) and src_of(f0.func).split(".")[-1] == "Parallel" and isinstance(res(c.args[0]), ast.GeneratorExp):
+            gen = res(c.args[0])
             e = gen.elt
-            if isinstance(e, ast.Call) and isinstance(e.func, ast.Call) and src_of(e.func.func) == "delayed" and e.func.args:
-                out.append((c, gen, e, e.func.args[0]))
+            if isinstance(e, ast.Call):
+                d0 = res(e.func)
+                if isinstance(d0, ast.Call) and src_of(d0.func) == "delayed" and d0.args:
+                    out.append((c, gen, e, d0.args[0]))
     return out
 
 
